@@ -456,3 +456,160 @@ def _():
     # G1: h_eff = 1 - x and h1 = (x - 1)^2 / 3: (1 - x)^2 = 3 h1, i.e. h_eff^2 kills the cofactor part; that h_eff alone does is A-STRUCT-G1
     ok = ok and c.H_EFF_G1 ** 2 == 3 * H1_BLS and c.H_EFF_G1 == 1 - x
     return ok, "r * H_EFF_G2 = (3x^2-3) * #E'(F_p2);  H_EFF_G1^2 = 3 h1"
+
+
+# ---- group orders and structure of the BLS12-381 curves (A-ORDER / A-STRUCT-G1 as computed facts) ------------------
+_MR_BASES = [2, 3, 5, 7, 11, 13, 17, 19, 23, 29, 31, 37, 41, 43, 47, 53, 59, 61, 67, 71, 73, 79, 83, 89, 97, 101, 103, 107, 109, 113,
+             127, 131, 137, 139, 149, 151, 157, 163, 167, 173]
+
+
+def _strong_prp(n):
+    """Miller-Rabin to the first 40 prime bases: deterministic below 3.3e24 (first 13 bases suffice), otherwise a strong
+    probable-prime test (no certificate)"""
+    if n < 2:
+        return False
+    for b in _MR_BASES:
+        if n % b == 0:
+            return n == b
+    d, s_ = n - 1, 0
+    while d % 2 == 0:
+        d //= 2
+        s_ += 1
+    for a in _MR_BASES:
+        x = pow(a, d, n)
+        if x in (1, n - 1):
+            continue
+        for _ in range(s_ - 1):
+            x = x * x % n
+            if x == n - 1:
+                break
+        else:
+            return False
+    return True
+
+
+def _det_points(mod, twist, count, seed):
+    """deterministic curve points of the real module: x = seed, seed+1, ... lifted when x^3 + b is a square"""
+    import random
+    rng = random.Random(seed)
+    out = []
+    q = P_BLS
+    if not twist:
+        FQ = mod.FQ
+        x = rng.randrange(q)
+        while len(out) < count:
+            x = (x + 1) % q
+            a = (x ** 3 + 4) % q
+            y = pow(a, (q + 1) // 4, q)
+            if y * y % q == a:
+                out.append((FQ(x), FQ(y), FQ(1)))
+    else:
+        from py_ecc.bls.point_compression import modular_squareroot_in_FQ2
+        F2 = mod.FQ2
+        x0 = rng.randrange(q)
+        while len(out) < count:
+            x0 = (x0 + 1) % q
+            x = F2([x0, 1])
+            y = modular_squareroot_in_FQ2(x ** 3 + mod.b2)
+            if y is not None and y * y == x ** 3 + mod.b2:
+                out.append((x, y, F2.one()))
+    return out
+
+
+@evaluator("bls.order-twist")
+def _():
+    """#E'(F_p2) = h2 r.  A point Q of E'(F_p2) with (h2 r) Q = O, (h2 r / c) Q != O and (h2) Q != O has order divisible by c r,
+    for the 448-bit prime factor c of h2 (h2 = 13^2 23^2 2713 11953 262069 c; c passes Miller-Rabin to 40 bases, no certificate) and r prime;
+    c r > 4p + 2 >= width of the Hasse interval of F_p2, so #E' is the only multiple of ord(Q) in the interval: h2 r."""
+    m = M("py_ecc.optimized_bls12_381.optimized_curve")
+    small = 13 ** 2 * 23 ** 2 * 2713 * 11953 * 262069
+    ok = H2_BLS % small == 0
+    c = H2_BLS // small
+    ok = ok and c.bit_length() == 448 and _strong_prp(c) and _strong_prp(R_BLS) and gcd(c, small * R_BLS) == 1
+    n = H2_BLS * R_BLS
+    q2 = P_BLS ** 2
+    ok = ok and abs(n - (q2 + 1)) <= 2 * P_BLS and c * R_BLS > 4 * P_BLS + 2
+    found = False
+    for Q in _det_points(m, True, 6, 20260930):
+        ok = ok and m.is_on_curve(Q, m.b2) and m.is_inf(m.multiply(Q, n))
+        if not m.is_inf(m.multiply(Q, n // c)) and not m.is_inf(m.multiply(Q, n // R_BLS)):
+            found = True
+            break
+    return ok and found, "E'(F_p2) has a point of order divisible by c*r > 4p+2 killed by h2*r, which lies in the Hasse interval: #E'(F_p2) = h2 r (c, r: strong probable primes to 40 bases)"
+
+
+@evaluator("bls.struct-G1")
+def _():
+    """the cofactor part of E(F_p) (order h1 = 3 * 11^2 * 10177^2 * 859267^2 * 52437899^2, #E = h1 r by bls.hasse-G1) has exponent
+    |x - 1| = 3 * 11 * 10177 * 859267 * 52437899: for each prime l > 3 two independent points of order l are exhibited
+    (so the l-primary part, of order l^2, is (Z/l)^2), the 3-part has order 3."""
+    m = M("py_ecc.optimized_bls12_381.optimized_curve")
+    primes = [11, 10177, 859267, 52437899]
+    ok = abs(X_BLS - 1) == 3 * 11 * 10177 * 859267 * 52437899 and H1_BLS == 3 * (11 * 10177 * 859267 * 52437899) ** 2
+    ok = ok and all(_strong_prp(l) for l in primes)          # < 2^64: deterministic
+    n = H1_BLS * R_BLS
+    pts = _det_points(m, False, 12, 381)
+
+    def aff(P):
+        x, y, z = P
+        zi = 1 / z
+        return (int((x * zi).n), int((y * zi).n))
+    for l in primes:
+        cof = n // (l * l)
+        tors = []
+        for P in pts:
+            T = m.multiply(P, cof)                     # in the l-primary part
+            if m.is_inf(T):
+                continue
+            if not m.is_inf(m.multiply(T, l)):
+                return False, f"a point of order {l}^2 exists: the {l}-part is cyclic"
+            tors.append(T)
+            if len(tors) >= 2:
+                # independence of tors[0], tors[-1]: tors[-1] not in <tors[0]> (baby-step giant-step over j in [0, l))
+                A, B = tors[0], tors[-1]
+                s = int(l ** 0.5) + 1
+                baby = {}
+                cur_ = m.Z1
+                for j in range(s):
+                    baby["inf" if m.is_inf(cur_) else aff(cur_)] = j
+                    cur_ = m.add(cur_, A)
+                step = m.neg(m.multiply(A, s))
+                g = B
+                hit = False
+                for i in range(s + 1):
+                    key = "inf" if m.is_inf(g) else aff(g)
+                    if key in baby:
+                        hit = True
+                        break
+                    g = m.add(g, step)
+                if not hit:
+                    break
+                tors.pop()
+        else:
+            return False, f"no two independent points of order {l} found"
+    return ok, "E(F_p)[l] is rational for l = 11, 10177, 859267, 52437899 (two independent points each): the cofactor part has exponent |x-1| = |H_EFF_G1|"
+
+
+@evaluator("swu.G2.root-tables")
+def _():
+    """table facts used by the completeness proofs of sqrt_division_FQ2 and of the eta loop of optimized_swu_G2.
+    X^4 - 1 and X^4 + 1 have at most four roots each in a field; the four listed below are distinct roots, hence all."""
+    c = M("py_ecc.optimized_bls12_381.constants")
+    F2 = c.FQ2
+    one = F2.one()
+    Q = P_BLS * P_BLS
+    ok = (Q - 1) % 8 == 0
+    g = F2([1, 1]) ** ((Q - 1) // 8)
+    fourth = [g ** k for k in (0, 2, 4, 6)]
+    prim = [g ** k for k in (1, 3, 5, 7)]
+    ok = ok and all(w ** 4 == one for w in fourth) and all(w ** 4 == -one for w in prim)
+    ok = ok and all(not (a == b) for L in (fourth, prim) for i, a in enumerate(L) for b in L[i + 1:])
+    rt = c.POSITIVE_EIGHTH_ROOTS_OF_UNITY
+    # T1: for every w with w^4 = 1 some root has root^2 w = 1;  T2: root^8 = 1
+    ok = ok and len(rt) == 4 and all(any(r * r * w == one for r in rt) for w in fourth)
+    ok = ok and all(r ** 8 == one for r in rt)
+    # T3: for every w with w^4 = -1 some eta has eta^2 w = Z^3
+    Z3 = c.ISO_3_Z ** 3
+    ok = ok and len(c.ETAS) == 4 and all(any(e * e * w == Z3 for e in c.ETAS) for w in prim)
+    return ok, ("T1: every fourth root of unity w has a positive eighth root rho with rho^2 w = 1; T2: rho^8 = 1; "
+                "T3: every w with w^4 = -1 has an eta with eta^2 w = Z^3")
